@@ -263,7 +263,7 @@ C15 ==
      /\ Len(items) = Len(regs)
      /\ \A k \in 1..Len(items) : items[k].status = "Ready"
      /\ op = "list_json" => (res.json_ok /\ \A k \in 1..Len(regs) : items[k].lr = LineRange(DD, regs[k]))
-     /\ op = "list" => (res.split_ok /\ \A k \in 1..Len(regs) :
+     /\ op = "list" => (\A k \in 1..Len(regs) :
                             (\A i \in 1..Len(file) : file[i] # CR) =>
                                Highlighted(items[k].raw) = ExpandTabs(Slice(file, regs[k][1], regs[k][2])))
      \* the regions are the ones clean deletes (markers observed inside clean on the same input)
@@ -280,17 +280,18 @@ C16 ==
          regs == IF op \in {"list", "list_json"}
                  THEN [k \in 1..Len(rr) |-> <<rr[k], "Ready">>]
                  ELSE AllRegions(DD)
+         w == IF items = <<>> THEN 0 ELSE ObservedWidth(items[1].block)
      IN /\ IsJsonOp(op) =>
             /\ res.json_ok
+            /\ items # <<>> => w >= 3
             /\ Len(items) = Len(regs) =>
                  \A k \in 1..Len(regs) :
-                    LET want == RenderItem(file, DD.br, regs[k][1]) IN
+                    LET want == RenderItem(file, DD.br, regs[k][1], w) IN
                     /\ items[k].lr = LineRange(DD, regs[k][1])
                     /\ IF ColumnsDetermined(file, DD.br, regs[k][1])
                        THEN items[k].block = want
                        ELSE MiddleOf(items[k].block) = MiddleOf(want)
         /\ ~IsJsonOp(op) =>
-            /\ res.split_ok
             \* pretty form with colour codes stripped = JSON form, item by item
             /\ \A i \in 1..(Len(hist) - 1) :
                  LET h == hist[i] IN
